@@ -268,7 +268,10 @@ fn circle_hist_case(case: &Case, l: &mut Local) {
         let hist: Vec<[f64; 3]> = h.iter().map(|i| alphabet[*i]).collect();
         let got = guarded(|| verif_observe_circle_fit(&pts, &initial, mode, &hist));
         let last: Vec<[f64; 3]> = hist.last().map(|x| vec![*x]).unwrap_or_default();
-        let fresh = guarded(|| verif_observe_circle_fit(&pts, &initial, mode, &last));
+        // the fresh problem is also *constructed* at the last parameters, so nothing computed at the
+        // other initial guess (residual cache, rejection weights) can leak into the comparison
+        let fresh_initial = last.first().map(|x| Circle2::new(x[0], x[1], x[2])).unwrap_or(initial);
+        let fresh = guarded(|| verif_observe_circle_fit(&pts, &fresh_initial, mode, &last));
         match (got, fresh) {
             (Ok(a), Ok(b)) => {
                 let same = close_vec(&a.0, &b.0) && close_vec(&a.1, &b.1) && close_vec(&a.2, &b.2) && (a.3.center - b.3.center).norm() <= 1e-9 * (1.0 + a.3.r()) && (a.3.r() - b.3.r()).abs() <= 1e-9 * (1.0 + a.3.r());
@@ -291,18 +294,26 @@ fn circle_hist_case(case: &Case, l: &mut Local) {
 fn three_case(case: &Case, l: &mut Local) {
     let mk = || serde_json::to_value(case).unwrap();
     let lat = |i: usize, s: f64| Point2::new((i % 4) as f64 * s, (i / 4) as f64 * s);
-    let s = [1.0, 1e-2, 37.5][case.d % 3];
+    const SCALES: [f64; 6] = [1.0, 1e-2, 37.5, 1e-3, 1e-5, 1e4];
+    let s = SCALES[case.d % SCALES.len()];
     let (a, b, c) = (lat(case.a, s), lat(case.b, s), lat(case.c, s));
-    let det = (a.x - b.x) * (b.y - c.y) - (b.x - c.x) * (a.y - b.y);
+    // collinearity is decided on the integer lattice indices, exactly
+    let li = |i: usize| ((i % 4) as i64, (i / 4) as i64);
+    let (ia, ib, ic) = (li(case.a), li(case.b), li(case.c));
+    let det = (ia.0 - ib.0) * (ib.1 - ic.1) - (ib.0 - ic.0) * (ia.1 - ib.1);
+    let coincident = ia == ib || ib == ic || ia == ic;
     l.eval();
     let r = guarded(|| Circle2::from_3_points(a, b, c));
+    if s < 0.01 {
+        l.bucket("triple with coordinates below 0.01");
+    }
     match r {
         Err(m) => {
             l.check("three-point circle returns", "panic", false, mk, || m.clone());
         }
         Ok(Ok(ci)) => {
-            l.outcome(hash_of(&(true, det == 0.0)));
-            if det == 0.0 {
+            l.outcome(hash_of(&(true, det == 0)));
+            if det == 0 {
                 l.bucket("collinear triple");
                 l.check("collinear points are rejected", "", false, mk, || format!("{:?} {:?} {:?}", a, b, c));
             } else {
@@ -312,15 +323,14 @@ fn three_case(case: &Case, l: &mut Local) {
             }
         }
         Ok(Err(_)) => {
-            l.outcome(hash_of(&(false, det == 0.0)));
-            if det == 0.0 {
+            l.outcome(hash_of(&(false, det == 0)));
+            if det == 0 || coincident {
                 l.bucket("collinear triple");
                 l.check("collinear points are rejected", "", true, mk, String::new);
-            } else if det.abs() < 1e-3 {
-                l.gray("small-scale triple inside the absolute collinearity band");
             } else {
+                // whatever the size of the triangle: the lattice angles are never below 18 degrees
                 l.bucket("non-collinear triple");
-                l.check("non-collinear points give a circle", "", false, mk, || format!("{:?} {:?} {:?} det {}", a, b, c, det));
+                l.check("non-collinear points give a circle", "", false, mk, || format!("{:?} {:?} {:?} (lattice determinant {}, scale {})", a, b, c, det, s));
             }
         }
     }
@@ -427,7 +437,7 @@ pub fn cases(tier: Tier) -> Vec<Case> {
     for a in 0..16 {
         for b in 0..16 {
             for c in 0..16 {
-                for d in 0..3 {
+                for d in 0..6 {
                     out.push(Case { kind: "three".into(), k: 0, a, b, c, d });
                 }
             }
@@ -447,9 +457,8 @@ pub fn run(tier: Tier) -> i32 {
     let mut cx = Ctx::new("C09", tier, "exploration");
     cx.rule = "polynomials with K = 2..6 coefficients: coefficient vectors from {-2,-1,0,1,3}^K (sub-sampled deterministically for K >= 5 in the quick tier) x 5 abscissa sets (asymmetric, one-sided, clustered, offset, integer) x sizes K, K+1, K+3 x 5 weight patterns; arbitrary ordinates {-1,0,2}^(K+2) for the orthogonality clause; circles: 3 centres x 3 radii x 4 arc extents x 3 starts x 3 counts x 5 guesses x 2 modes; all set_params histories of length <= 3 over a 5-vector alphabet of the private CircleFit problem (hook H4) compared with a fresh problem; every ordered triple of the 4x4 lattice at 3 scales; seeded RANSAC on 36 contaminated sets. distinct = distinct cases".into();
     cx.bounds = json!({"K": [2, 6], "coefficient_alphabet": COEF, "abscissa_sets": xsets().len(), "circle_histories_max_len": 3});
-    cx.require(&["abscissae with a non-zero moment of order K", "abscissae with a vanishing moment of order K", "weighted", "unweighted", "arbitrary data", "full circle", "partial arc", "perturbed samples", "set_params history", "collinear triple", "non-collinear triple", "contaminated circle"]);
+    cx.require(&["abscissae with a non-zero moment of order K", "abscissae with a vanishing moment of order K", "weighted", "unweighted", "arbitrary data", "full circle", "partial arc", "perturbed samples", "set_params history", "collinear triple", "non-collinear triple", "triple with coordinates below 0.01", "contaminated circle"]);
     cx.assume("recovery tolerance 1e5 * cond(M) * eps * |c|_inf (the routine inverts the normal matrix explicitly); instances with cond > 1e8 are skipped and counted");
-    cx.assume("three-point circle: the routine's collinearity test is an absolute |det| < 1e-6, triples with |det| < 1e-3 that are rejected are gray");
     let cs = cases(tier);
     let l = sweep(&cs, judge);
     cx.absorb(l);
